@@ -71,6 +71,28 @@ func (P *Prog) resolveType(pkg *types.Package, text string) (types.Type, error) 
 			return nil, err
 		}
 		return types.NewPointer(t), nil
+	case strings.HasPrefix(text, "map["):
+		// map[K]V: find the matching bracket
+		d, i := 0, 3
+		for ; i < len(text); i++ {
+			if text[i] == '[' {
+				d++
+			} else if text[i] == ']' {
+				d--
+				if d == 0 {
+					break
+				}
+			}
+		}
+		kt, err := P.resolveType(pkg, text[4:i])
+		if err != nil {
+			return nil, err
+		}
+		vt, err := P.resolveType(pkg, text[i+1:])
+		if err != nil {
+			return nil, err
+		}
+		return types.NewMap(kt, vt), nil
 	case strings.HasPrefix(text, "["):
 		i := strings.Index(text, "]")
 		var n int64
@@ -492,7 +514,7 @@ func (env *Env) indexOf(v, i Val) (Val, error) {
 			h := env.st.getHeap(env.P, "E$"+typeKey(u.Elem()), fmt.Sprintf("(Array Int (Array Int %s))", es))
 			inner = app(fmt.Sprintf("(Array Int %s)", es), "select", h, app("Int", "s_arr", v.T))
 		}
-		return Val{T: app(es, "select", inner, app("Int", "+", app("Int", "s_off", v.T), i.T)), GoT: u.Elem()}, nil
+		return Val{T: app(es, "select", inner, app("Int", "sidx", v.T, i.T)), GoT: u.Elem()}, nil
 	case *types.Array:
 		es := env.P.sorts.sortOf(u.Elem())
 		return Val{T: app(es, "select", v.T, i.T), GoT: u.Elem()}, nil
@@ -777,6 +799,21 @@ func (env *Env) elabCall(x ECall) (Val, error) {
 			return Val{T: app("Str", "schr", v.T), GoT: types.Typ[types.String]}, nil
 		}
 		return v, nil
+	case "has": // map membership
+		m, err := env.elab(x.Args[0])
+		if err != nil {
+			return Val{}, err
+		}
+		k, err := env.elab(x.Args[1])
+		if err != nil {
+			return Val{}, err
+		}
+		mt, ok := m.GoT.Underlying().(*types.Map)
+		if !ok || env.st == nil {
+			return Val{}, fmt.Errorf("has() needs a map in a state")
+		}
+		pres := env.st.mapPresent(P, mt, m.T)
+		return Val{T: and(not(eq(m.T, Term{"0", "Int"})), app("Bool", "select", pres, k.T))}, nil
 	case "arr": // contents array of a slice in the current state
 		v, err := env.elab(x.Args[0])
 		if err != nil {
